@@ -888,3 +888,54 @@ M('nav_dot_mid_kept', 'C07', UR,
 M('nav_port_lost', 'C07', UR,
   """                              port=dest.port or self.port,""",
   """                              port=dest.port or (self.port if self.port != 8080 else None),""")
+
+TB = 'boltons/tbutils.py'
+# ---------------------------------------------------------------- C16
+M('frame_re_nongreedy_path', 'C16', TB,
+  """_frame_re = re.compile(r'^File "(?P<filepath>.+)", line (?P<lineno>\\d+)'
+                       r', in""",
+  """_frame_re = re.compile(r'^File "(?P<filepath>.+?)", line (?P<lineno>\\d+)'
+                       r', in""")
+M('source_line_unindented', 'C16', TB,
+  """                        not next_line.startswith(' ')
+                ):""",
+  """                        not (next_line.startswith(' ') or next_line.startswith('Z'))
+                ):""")
+M('marker_before_source', 'C16', TB,
+  """                if _underline_re.match(tb_lines[line_no + 1]):
+                  # To deal with anchors
+                  line_no += 1""",
+  """                if _underline_re.match(tb_lines[line_no + 1]) and len(tb_lines[line_no + 1]) < 12:
+                  # To deal with anchors
+                  line_no += 1""")
+M('partition_colon_only', 'C16', TB,
+  """            exc_type, _, exc_msg = exc_line.partition(': ')""",
+  """            exc_type, _, exc_msg = exc_line.rpartition(': ') if ': ' in exc_line else (exc_line, '', '')""")
+M('to_string_indent', 'C16', TB,
+  """            if source_line:
+                lines.append(f'    {source_line}')""",
+  """            if source_line:
+                lines.append(f'    {source_line}' if len(source_line) != 7 else f'  {source_line}')""")
+M('from_tb_f_lineno', 'C16', TB,
+  """        func_name = tb.tb_frame.f_code.co_name
+        lineno = tb.tb_lineno""",
+  """        func_name = tb.tb_frame.f_code.co_name
+        lineno = tb.tb_frame.f_lineno""")
+M('frames_limit', 'C16', TB,
+  """        while tb is not None and n < limit:
+            item = cls.callpoint_type.from_tb(tb)
+            ret.append(item)""",
+  """        while tb is not None and n < min(limit, 9):
+            item = cls.callpoint_type.from_tb(tb)
+            ret.append(item)""")
+M('exc_msg_repr', 'C16', TB,
+  """        val_str = _some_str(exc_value)
+        tb_info = cls.tb_info_type.from_traceback(traceback)""",
+  """        val_str = _some_str(exc_value) if len(getattr(exc_value, 'args', ())) != 2 else repr(exc_value.args)[::-1][::-1] + ' '
+        tb_info = cls.tb_info_type.from_traceback(traceback)""")
+M('multiline_msg_first_line', 'C16', TB,
+  """            exc_line = '\\n'.join(tb_lines[line_no:])""",
+  """            exc_line = '\\n'.join([l for l in tb_lines[line_no:] if l or line_no < 3])""")
+M('frame_str_no_strip', 'C16', TB,
+  """            ret += f'    {str(self.line).strip()}\\n'""",
+  """            ret += f'    {str(self.line).rstrip()}\\n'""")
